@@ -566,6 +566,15 @@ func (b *backend) pathPolicySoftDelete(ctx context.Context, req *logical.Request
 	defer p.Unlock()
 
 	wasDeleted := !p.SoftDeleted
+
+	// The policy object is the cached one: if the change cannot be made
+	// durable, the flag must not stay behind in memory.
+	persisted := false
+	defer func(prev bool) {
+		if !persisted {
+			p.SoftDeleted = prev
+		}
+	}(p.SoftDeleted)
 	p.SoftDeleted = true
 
 	if err := p.Persist(ctx, req.Storage); err != nil {
@@ -584,6 +593,7 @@ func (b *backend) pathPolicySoftDelete(ctx context.Context, req *logical.Request
 	if err := logical.EndTxStorage(ctx, req); err != nil {
 		return nil, err
 	}
+	persisted = true
 
 	return resp, nil
 }
@@ -610,6 +620,15 @@ func (b *backend) pathPolicySoftDeleteRestore(ctx context.Context, req *logical.
 	defer p.Unlock()
 
 	wasRestored := p.SoftDeleted
+
+	// As for soft-delete: do not leave the cached policy changed when the
+	// change was not made durable.
+	persisted := false
+	defer func(prev bool) {
+		if !persisted {
+			p.SoftDeleted = prev
+		}
+	}(p.SoftDeleted)
 	p.SoftDeleted = false
 
 	if err := p.Persist(ctx, req.Storage); err != nil {
@@ -628,6 +647,7 @@ func (b *backend) pathPolicySoftDeleteRestore(ctx context.Context, req *logical.
 	if err := logical.EndTxStorage(ctx, req); err != nil {
 		return nil, err
 	}
+	persisted = true
 
 	return resp, nil
 }
